@@ -437,6 +437,7 @@ def compare_history(h, mlines, ilines, in_projection, strict_image=False):
     n = min(len(mlines), len(ilines))
     abs_only = 0
     compared = 0
+    info = 0
     for i in range(n):
         ml, il = mlines[i], ilines[i]
         op = ml.split(" ", 1)[0]
@@ -465,16 +466,21 @@ def compare_history(h, mlines, ilines, in_projection, strict_image=False):
         compared += 1
         if via_abs and ok:
             abs_only += 1
+        if not ok and op == "LOADFLIP":
+            # a bit-flipped image is not a prefix of a valid one: outside C09's quantifier (and everybody else's).  The
+            # stream exercises the model's decoder; a disagreement is counted, it is nobody's alarm
+            info += 1
+            continue
         if not ok:
             return {"status": "diverge", "index": i, "model": ml, "impl": il,
-                    "compared": compared, "abs_only": abs_only}
+                    "compared": compared, "abs_only": abs_only, "informational": info}
     if len(mlines) != len(ilines):
         i = n
         return {"status": "diverge", "index": i,
                 "model": mlines[i] if i < len(mlines) else "<history ended>",
                 "impl": ilines[i] if i < len(ilines) else "<history ended>",
                 "compared": compared, "abs_only": abs_only}
-    return {"status": "agree", "compared": compared, "abs_only": abs_only}
+    return {"status": "agree", "compared": compared, "abs_only": abs_only, "informational": info}
 
 
 # ---------------------------------------------------------------- proof audit
